@@ -300,6 +300,10 @@ func (fc *FCtx) execAssign(s *ast.AssignStmt, st *State) {
 // coerce adjusts a value to a static type (mostly a no-op; sets GoT).
 func (fc *FCtx) coerce(v Val, t types.Type) Val {
 	s := fc.U.SortOf(t)
+	if v.S != nil && (v.S.Name == "Bz" || v.S.Name == "StoreH") {
+		v.GoT = t
+		return v
+	}
 	if v.S != s && !(v.S.Kind == KInt && s.Kind == KInt) {
 		if v.S.Kind == KInt && v.T == "0" && s.Kind != KInt {
 			// nil literal
